@@ -351,6 +351,58 @@ def targets():
     return out
 
 
+def model_census(names=('model', '_model')):
+    """every place where the user's model (or, with other names, another method) is called, with its loop depth, and every other
+    place where the object is read (handed on to another object), over all of epsie/"""
+    sites, escapes = [], []
+
+    def visit(node, qual, depth, rel):
+        for ch in ast.iter_child_nodes(node):
+            q, d = qual, depth
+            if isinstance(ch, (ast.ClassDef, ast.FunctionDef, ast.AsyncFunctionDef, ast.Lambda)):
+                q = qual + [getattr(ch, 'name', '<lambda>')]
+            if isinstance(ch, (ast.For, ast.While, ast.ListComp, ast.GeneratorExp, ast.DictComp, ast.SetComp)):
+                d = depth + 1
+            if isinstance(ch, ast.Call) and isinstance(ch.func, ast.Attribute) and ch.func.attr in names:
+                sites.append(('%s:%s' % (rel, '.'.join(q)), d))
+            elif isinstance(ch, ast.Call) and isinstance(ch.func, ast.Name) and ch.func.id in names:
+                sites.append(('%s:%s' % (rel, '.'.join(q)), d))
+            elif (isinstance(ch, ast.Attribute) and ch.attr in names and isinstance(ch.ctx, ast.Load)
+                  and not (isinstance(node, ast.Call) and node.func is ch)):
+                escapes.append('%s:%s' % (rel, '.'.join(q)))
+            elif isinstance(ch, ast.Name) and ch.id in names and isinstance(ch.ctx, ast.Load) and not (isinstance(node, ast.Call) and node.func is ch):
+                escapes.append('%s:%s' % (rel, '.'.join(q)))
+            visit(ch, q, d, rel)
+    base = os.path.join(REPO, 'epsie')
+    for root, _, files in sorted(os.walk(base)):
+        for fn in sorted(files):
+            if fn.endswith('.py'):
+                path = os.path.join(root, fn)
+                visit(ast.parse(open(path).read()), [], 0, os.path.relpath(path, REPO))
+    return sorted(sites), sorted(set(escapes))
+
+
+def generate_calls():
+    lines = ['(* GENERATED by tools/py2coq.py from the current /repo sources - do not edit. *)',
+             'From Coq Require Import String List.', 'Import ListNotations.', 'Local Open Scope string_scope.', '']
+    failed = []
+    try:
+        sites, escapes = model_census()
+        lines.append('Definition src_model_call_sites : list (string * nat) := [%s].'
+                     % '; '.join('("%s", %d%%nat)' % (a, d) for a, d in sites))
+        lines.append('')
+        lines.append('Definition src_model_handed_on : list string := [%s].' % '; '.join('"%s"' % a for a in escapes))
+        lines.append('')
+        sites2, _ = model_census(('step',))
+        lines.append('Definition src_step_call_sites : list (string * nat) := [%s].'
+                     % '; '.join('("%s", %d%%nat)' % (a, d) for a, d in sites2))
+    except (SyntaxError, OSError) as e:
+        lines.append('(* src_model_call_sites: NOT TRANSLATED: %s *)' % str(e).replace('*)', '* )'))
+        failed.append(('src_model_call_sites', str(e)))
+    lines.append('')
+    return '\n'.join(lines), failed
+
+
 def generate():
     lines = ['(* GENERATED by tools/py2coq.py from the current /repo sources - do not edit. *)',
              'From Coq Require Import ZArith Bool.', 'Local Open Scope Z_scope.', '']
@@ -367,6 +419,18 @@ def generate():
 
 def main():
     out = sys.argv[1] if len(sys.argv) > 1 else None
+    if len(sys.argv) > 2 or out is None:
+        text2, failed2 = generate_calls()
+        if out is None:
+            print(text2)
+        else:
+            old2 = open(sys.argv[2]).read() if os.path.exists(sys.argv[2]) else None
+            if old2 != text2:
+                with open(sys.argv[2] + '.tmp', 'w') as f:
+                    f.write(text2)
+                os.replace(sys.argv[2] + '.tmp', sys.argv[2])
+        for name, err in failed2:
+            print('py2coq: %s not translated: %s' % (name, err), file=sys.stderr)
     text, failed = generate()
     if out is None:
         print(text)
